@@ -119,7 +119,8 @@ def ensure_rs(package, flavor="release"):
     env = _env()
     if flavor == "asan":
         tdir = os.path.join(root, "rs-asan")
-        env["RUSTFLAGS"] = "-Zsanitizer=address --cfg %s" % GUARD
+        # debug assertions on: the runtime's own debug_assert!s and std's unsafe-precondition checks (slice::from_raw_parts on NULL, ...) fire in this leg
+        env["RUSTFLAGS"] = "-Zsanitizer=address -C debug-assertions=on --cfg %s" % GUARD
         cmd = ["cargo", "+nightly", "build", "--offline", "-q", "--release", "-p", package, "--target", "x86_64-unknown-linux-gnu"]
         out = os.path.join(tdir, "x86_64-unknown-linux-gnu", "release")
     elif flavor == "debug":
